@@ -153,6 +153,13 @@ def run(repo: Repo, tier: str) -> Report:
         if "values" in env:
             src_txt = src_txt.replace(f"values[{idx_name[0]}]", norm_stmt(env["values"]).replace(" ", "") + f"[{idx_name[0]}]")
         okm = src is not None and src_txt in (f"np.where(mask,np.arange({keys_name}.size)[{idx_name[0]}],0)", idx_name[0])
+        if not okm:
+            # the same expression with every single-assignment local substituted: independent of which intermediates the code names
+            from ..rules import resolve_local
+            res = ast.unparse(resolve_local(tl, ret[0].value.elts[0], depth=8)).replace(" ", "")
+            K = f"np.unique({xs})"
+            for I in (f"np.searchsorted({K},{xs}.ravel()).reshape({xs}.shape)", f"{K}.searchsorted({xs}.ravel()).reshape({xs}.shape)"):
+                okm = okm or res in (f"np.where({K}[{I}]=={xs}.data,np.arange({K}.size)[{I}],0)", I)
         ob("R-FORMULA", UFILE, "to_linspace", "the returned codes are the dense indices 0..k-1", bool(okm),
            f"codes = {ast.unparse(src) if src is not None else None}", src if src is not None else "codes")
 
@@ -242,22 +249,38 @@ def run(repo: Repo, tier: str) -> Report:
         tt = [ast.unparse(t) for t in tests]
         ob("R-VALIDATE", AFILE, "PixelAlgorithms.spi", f"{role} site is dominated by the out-of-range checks (begin after the last step, end before the first)",
            "calibration_begin > tix[-1:]" in tt and "calibration_end < tix[:1]" in tt, f"dominating raising tests: {tt}", f"{role}: out-of-range checks")
-    ob("R-VALIDATE", AFILE, "PixelAlgorithms.spi", "grouped site is dominated by the length check of the labels", "len(groups) != len(self._obj.time)" in tg,
-       f"dominating raising tests: {tg}", "grouped: len(groups) == len(time)")
-    # grouping pipeline
+    # grouping pipeline. GP = the caller's raw labels (the parameter), GR = the dense re-encoding returned by to_linspace, KN = its key list.
+    # Today's code re-binds the parameter (GR == GP); a separate local for the re-encoding is the same program as long as the parameter
+    # itself is not assigned anywhere and every consumer below takes GR.
     assigns = [norm_stmt(s) for s in ast.walk(m) if isinstance(s, ast.Assign)]
     tl_calls = [s for s in ast.walk(m) if isinstance(s, ast.Assign) and isinstance(s.value, ast.Call) and ast.unparse(s.value.func) == "to_linspace"]
-    ok_tl = (len(tl_calls) == 1 and isinstance(tl_calls[0].targets[0], ast.Tuple) and [ast.unparse(t) for t in tl_calls[0].targets[0].elts] == ["groups", "keys"]
-             and [ast.unparse(a) for a in tl_calls[0].value.args] == ["np.array(groups, dtype='str')"])
+    GP = "groups"
+    if GP not in [a.arg for a in m.args.args + m.args.kwonlyargs]:
+        raise AnalysisError("missing anchor: parameter `groups` of PixelAlgorithms.spi")
+    GR, KN = GP, "keys"
+    if len(tl_calls) == 1 and isinstance(tl_calls[0].targets[0], ast.Tuple) and len(tl_calls[0].targets[0].elts) == 2 \
+            and all(isinstance(t, ast.Name) for t in tl_calls[0].targets[0].elts):
+        GR, KN = (t.id for t in tl_calls[0].targets[0].elts)
+    gp_assigned = [s for s in ast.walk(m) if isinstance(s, (ast.Assign, ast.AugAssign, ast.NamedExpr, ast.For)) and s not in tl_calls
+                   and any(isinstance(n, ast.Name) and n.id == GP and isinstance(n.ctx, ast.Store)
+                           for t in (s.targets if isinstance(s, ast.Assign) else [s.target]) for n in ast.walk(t))
+                   and not (isinstance(s, ast.Assign) and ast.unparse(s.value) == f"{GP}.astype('int16')" and GR == GP)]
+    ob("R-VALIDATE", AFILE, "PixelAlgorithms.spi", "grouped site is dominated by the length check of the labels", f"len({GR}) != len(self._obj.time)" in tg
+       or f"len({GP}) != len(self._obj.time)" in tg, f"dominating raising tests: {tg}", "grouped: len(groups) == len(time)")
+    ok_tl = (len(tl_calls) == 1 and isinstance(tl_calls[0].targets[0], ast.Tuple) and [ast.unparse(t) for t in tl_calls[0].targets[0].elts] == [GR, KN]
+             and [ast.unparse(a) for a in tl_calls[0].value.args] == [f"np.array({GP}, dtype='str')"] and not gp_assigned)
     ob("R-FORMULA", AFILE, "PixelAlgorithms.spi", "labels are compared as strings and re-encoded densely (only the partition matters)",
-       ok_tl, f"{[norm_stmt(t) for t in tl_calls]}", "groups, keys = to_linspace(np.array(groups, dtype='str'))")
-    ob("R-FORMULA", AFILE, "PixelAlgorithms.spi", "num_groups is the number of keys", "num_groups = len(keys)" in assigns, "", "num_groups = len(keys)")
+       ok_tl, f"{[norm_stmt(t) for t in tl_calls]}" + (f"; the raw labels are re-assigned: {[norm_stmt(x) for x in gp_assigned]}" if gp_assigned else ""),
+       "groups, keys = to_linspace(np.array(groups, dtype='str'))")
+    ob("R-FORMULA", AFILE, "PixelAlgorithms.spi", "num_groups is the number of keys", f"num_groups = len({KN})" in assigns, "", "num_groups = len(keys)")
     grp_call = [s for s in gci if not isinstance(s.targets[0], ast.Tuple)]
+    after_tl = len(grp_call) == 1 and len(tl_calls) == 1 and (grp_call[0].lineno, grp_call[0].col_offset) > (tl_calls[0].lineno, tl_calls[0].col_offset)
     ob("R-BIND", AFILE, "PixelAlgorithms.spi", "cal_indices = get_calibration_indices(time index, (begin, end), groups, num_groups) with the re-encoded groups",
-       len(grp_call) == 1 and [ast.unparse(a) for a in grp_call[0].value.args] == ["tix", "(calibration_begin, calibration_end)", "groups", "num_groups"]
-       and ast.unparse(grp_call[0].targets[0]) == ci, f"{norm_stmt(grp_call[0]) if grp_call else None}", grp_call[0] if grp_call else "cal_indices = ...")
+       len(grp_call) == 1 and [ast.unparse(a) for a in grp_call[0].value.args] == ["tix", "(calibration_begin, calibration_end)", GR, "num_groups"]
+       and ast.unparse(grp_call[0].targets[0]) == ci and after_tl, f"{norm_stmt(grp_call[0]) if grp_call else None}" + ("" if after_tl else " (before the re-encoding)"),
+       grp_call[0] if grp_call else "cal_indices = ...")
     ob("R-BIND", AFILE, "PixelAlgorithms.spi", "grouped site passes (data, groups, num_groups, nodata, cal_indices)",
-       [ast.unparse(a) for a in sg.args] == ["self._obj", "groups", "num_groups", "nodata", ci], f"{[ast.unparse(a) for a in sg.args]}", "gammastd_grp args")
+       [ast.unparse(a) for a in sg.args] == ["self._obj", GR, "num_groups", "nodata", ci], f"{[ast.unparse(a) for a in sg.args]}", "gammastd_grp args")
     # explicit casts of kernel arguments agree with the kernel's declared element type (a narrower cast wraps the dense group ids)
     kg = kernel(kernels, "gammastd_grp")
     n_casts = 0
